@@ -183,7 +183,7 @@ def hEpoch : Handler := fun j => do
       else match (a.species.flatMap (·.orgs)).find? (fun x => !decide (WF x.genome)) with
         | some x => "genome not well-formed after epoch: " ++ wfWhy x.genome
         | none => if verifyErr.isSome then "Population.Verify fails: " ++ verifyErr.getD "" else ""
-    let c09why : String := if !inputOk then "" else PopSpec.quotasWhy ap n
+    let c09why : String := if !inputOk then "" else (let q := PopSpec.quotasWhy ap n; if q != "" then q else PopSpec.parentsWhy o p ap)
     let c10why : String := if !inputOk then "" else PopSpec.championWhy bitEq ap a
     let c03why : String := if !inputOk then "" else PopSpec.innovWhy p a
     let structural := a.species.any (fun s => s.orgs.any (·.mutStructBaby))
